@@ -23,8 +23,9 @@ name, unsupported major version - each also rejected by the strict reference par
 Keys carry what is needed to tell root causes apart: the operator for R1/R2/R4, the status class and whether the HTTP layer saw the
 message in one read event or in several for R2/R3 (answers to bytes that arrive after an error answer was decided are one known root
 cause; two answers to bytes that arrived in ONE read would be another), the table path for R6.
-Avoidance (ctx.avoid): a key that ends in an operator name removes that operator from the generator; a residue key removes that path from
-the walk (other paths are still found); a response-after-close key makes the judge look only at what was written up to the announcing answer.
+Avoidance (ctx.avoid): a key that ends in an operator name removes that operator from the generator; a residue key of the HTTP component
+removes that path from the walk (other paths are still found), one of the socket server / poller switches the walk over those two off;
+a response-after-close key makes the judge look only at what was written up to the announcing answer.
 """
 from simcore import world, simnet
 from simcore.world import W
@@ -514,6 +515,9 @@ def _run(ctx):
     ch, cfg = ctx.ch, ctx.cfg
     avoid_ops = frozenset(k.rsplit('/', 1)[1] for k in ctx.avoid if k.startswith('C14/') and k.rsplit('/', 1)[1] in OPNAMES)
     avoid_paths = frozenset(k[len('C14/residue/'):] for k in ctx.avoid if k.startswith('C14/residue/'))
+    # a listed residue in the socket server / poller (C12's ground) switches the walk over those two components off altogether: their
+    # tables are filled by the same late write/close events, and peeling them path by path would only rename one finding
+    avoid_transport = any(not p.startswith('HTTP.') for p in avoid_paths)
     st = dict(viol=False)
 
     def fail(key, detail):
@@ -731,7 +735,7 @@ def _run(ctx):
                 continue
             if c.sent_mut and c.truncated:
                 ctx.stat('disconnect-mid-message')
-            for root in (srv.http, srv.server, poller):
+            for root in ((srv.http,) if avoid_transport else (srv.http, srv.server, poller)):
                 path = holds(root, c.sock, avoid_paths)
                 if path:
                     fail('C14/residue/%s' % path, 'connection %d (operator %s, peer %s%s): after its disconnect event the socket is still reachable as %s' % (
